@@ -1,6 +1,7 @@
 import IcyVerif.Drv.ArtIO
 import IcyVerif.Drv.Bgi
 import IcyVerif.Drv.BinFormats
+import IcyVerif.Drv.BinLayers
 import IcyVerif.Drv.Codec
 import IcyVerif.Drv.ColorOpt
 import IcyVerif.Drv.Comp
@@ -40,6 +41,7 @@ def dispatch (line : String) : String :=
   | "artio" :: rest => ArtIO.handle rest
   | "bgi" :: rest => Bgi.handle rest
   | "binformats" :: rest => BinFormats.handle rest
+  | "binlayers" :: rest => BinLayers.handle rest
   | "codec" :: rest => Codec.handle rest
   | "coloropt" :: rest => ColorOpt.handle rest
   | "comp" :: rest => Comp.handle rest
